@@ -65,7 +65,7 @@ class C13(Check):
     pid = 'C13'
     level = 'fault_enumeration'
     K = None
-    budget = {'quick': 50.0, 'thorough': 420.0}
+    budget = {'quick': 80.0, 'thorough': 480.0}
     assumptions = [
         'Linux flock on the sandbox\'s local filesystem; the Windows branch (msvcrt) is not executable here',
         'crash = SIGKILL of the whole process at a source-line event of aiuti/filelock.py (no partial kernel state '
@@ -89,9 +89,12 @@ class C13(Check):
         self.dir = tempfile.mkdtemp(prefix='c13-')
         self.K = None
 
+    H = {}
+
     def _dry(self):
         d = tempfile.mkdtemp(prefix='c13dry-')
         K = {}
+        self.H = {}
         try:
             for s in SCENARIOS:
                 path = os.path.join(d, f'{s}.lock')
@@ -106,6 +109,8 @@ class C13(Check):
                         os.close(hold)
                 tot = [l for l in out if l.startswith('TOTAL')]
                 K[s] = int(tot[0].split()[1]) if tot and rc == 0 else 0
+                hold_ = [l for l in out if l.startswith('HOLDING')]
+                self.H[s] = [int(x) for x in hold_[0].split()[1].split(',')] if hold_ else []
         finally:
             shutil.rmtree(d, ignore_errors=True)
         return K
@@ -125,6 +130,15 @@ class C13(Check):
                 ns = list(range(1 + (seed + rep) % stride, K[s] + 1, stride))
                 for i in range(0, len(ns), chunk):
                     yield {'scen': s, 'ns': ns[i:i + chunk], 'cont': 1 + (i // chunk + rep) % 2, 'rep': rep}
+        # kills aimed at the events at which the child holds the lock (known from the dry run), with the two specialised
+        # contenders: one blocked inside flock(), one polling as fast as it can - the window in which survivors can be
+        # handed the lock on an inode that somebody else is about to replace
+        for rep in range(8 if tier == "quick" else 30):
+            for s in ('plain', 'with', 'nested'):
+                hs = list(self.H.get(s, []))
+                rng.shuffle(hs)
+                for i in range(0, len(hs), chunk):
+                    yield {'scen': s, 'ns': hs[i:i + chunk], 'cont': 2, 'rep': 100 + rep}
         # one live waiter that is already polling with a long timeout when the holder dies
         for rep in range(reps):
             for s in ('plain', 'nested'):
@@ -135,10 +149,13 @@ class C13(Check):
     # -- helpers ----------------------------------------------------------------
     def probe_both(self, path, res, what):
         l = self.F.FileLock(path)
-        g = l.acquire(blocking=False)
+        try:
+            g = l.acquire(blocking=False)
+        except Exception as e:      # noqa - an acquire that fails with an error after a crash did not acquire
+            g = repr(e)
         if g is not True:
             res.violate('C13:stuck-after-crash', 'a fresh FileLock in another process could not acquire after the holder was killed',
-                        **what)
+                        got=repr(g), **what)
             return False
         l.release()
         p = subprocess.run([PY, '-c', PROBE, path], env=_env(), capture_output=True, timeout=60)
